@@ -370,6 +370,16 @@ func BuildArgv(g *GenSpec, w *World, root, top string) (argv []string, dir strin
 	case "rel":
 		dir = filepath.Dir(root)
 		argv = append(argv, "-cwd", "./"+filepath.Base(root))
+	case "chdir-symlink", "symlink-rel":
+		// the process is started inside a symbolic link to the module root (PWD names the
+		// link); symlink-rel additionally passes `-cwd .`
+		link := root + "-link"
+		_ = os.Remove(link)
+		_ = os.Symlink(root, link)
+		dir = link
+		if g.Cwd == "symlink-rel" {
+			argv = append(argv, "-cwd", ".")
+		}
 	default:
 		dir = root
 		if strings.HasPrefix(g.Cwd, "sub:") {
@@ -612,7 +622,7 @@ func (o *Obs) RangeReach() map[int]int {
 }
 
 // corrupt damages one previously generated (non-input) .go file, chosen by index among the
-// sorted candidates; how = delete | garbage | trunc-body | trunc-header | append-junk | stale-keep.
+// sorted candidates; how = delete | garbage | trunc-body | trunc-header | append-junk | nul-body | stale-keep.
 func corrupt(root string, inputs map[string]string, op Op) error {
 	snap, err := TakeSnapshot(root)
 	if err != nil {
@@ -662,6 +672,14 @@ func corrupt(root string, inputs map[string]string, op Op) error {
 		}
 	case "append-junk":
 		return os.WriteFile(fp, append(b, []byte("\nfunc (\n")...), 0o644)
+	case "nul-body":
+		// the two header lines reached the disk, the rest of the file was allocated but its
+		// data never written (zero-filled blocks after a crash)
+		if len(b) > hdr {
+			nb := append([]byte{}, b[:hdr]...)
+			nb = append(nb, make([]byte, len(b)-hdr)...)
+			return os.WriteFile(fp, nb, 0o644)
+		}
 	}
 	return nil
 }
